@@ -362,10 +362,18 @@ Section TestFacts.
                (forall xk, In xk (reads e) <-> In xk (test_reads st)).
   Proof.
     unfold stmt_of_tokens. destruct (src_of_tokens row ts) as [[[[y' i'] k'] st]|] eqn:E; [|discriminate].
+    cbv zeta. destruct (py_ok (fold_ints (denote st))); [|discriminate].
     intros H; inversion H; subst. destruct (src_of_tokens_reads _ _ _ _ _ E) as [Hr Ht].
     split; [exact Hr|]. exists st. repeat split; auto.
     - rewrite fold_ints_reads. apply denote_reads.
     - rewrite fold_ints_reads. apply denote_reads.
+  Qed.
+  (* every accepted statement is free of operations CPython would perform on Python numbers with another outcome than the
+     float operation (division by a literal zero, powers of literals): those are outside the subset, not misread *)
+  Theorem stmt_of_tokens_py_ok ts y i k0 e : stmt_of_tokens row ts = Some (y, SAssign i k0 e) -> py_ok e = true.
+  Proof.
+    unfold stmt_of_tokens. destruct (src_of_tokens row ts) as [[[[y' i'] k'] st]|]; [|discriminate].
+    cbv zeta. destruct (py_ok (fold_ints (denote st))) eqn:E; [|discriminate]. intros H; inversion H; subst. exact E.
   Qed.
 End TestFacts.
 
@@ -448,7 +456,8 @@ Corollary statement_terms_exact_plain row eq y i k0 e e0 :
   src_of_tokens row (lex_items LNone (scan_items eq)) = Some (y, i, k0, SVal e0) ->
   e = fold_ints e0 /\ flat_map (match_read row) (matches_of (scan_items eq)) = somes ((i, k0) :: reads e).
 Proof.
-  unfold stmt_of_equation, stmt_of_tokens. intros H Hs. rewrite Hs in H. inversion H; subst. cbn [denote].
+  unfold stmt_of_equation, stmt_of_tokens. intros H Hs. rewrite Hs in H. cbv zeta in H.
+  destruct (py_ok (fold_ints (denote (SVal e0)))); [|discriminate]. inversion H; subst. cbn [denote].
   split; [reflexivity|]. destruct (src_of_tokens_reads _ _ _ _ _ _ Hs) as [_ Ht].
   rewrite fold_ints_reads. cbn [test_reads] in Ht. rewrite <- Ht. symmetry. apply lex_reads.
 Qed.
